@@ -664,12 +664,18 @@ pub fn solve_itp(
     mut yb: f64,
 ) -> f64 {
     let n1_2 = (((b - a) / epsilon).log2().ceil() - 1.0).max(0.0) as usize;
-    let nmax = n0 + n1_2;
-    let mut scaled_epsilon = epsilon * (1u64 << nmax) as f64;
+    let nmax = n0.saturating_add(n1_2);
+    // 2^nmax, exactly. (`1u64 << nmax` overflows when `epsilon` is below 2^-63 of the bracket.)
+    let mut scaled_epsilon = epsilon * f64::from_bits((1023 + nmax.min(1023) as u64) << 52);
     while b - a > 2.0 * epsilon {
         #[cfg(kurbo_verif)]
         crate::verif::tick();
         let x1_2 = 0.5 * (a + b);
+        if x1_2 <= a || x1_2 >= b {
+            // The bracket has collapsed to adjacent floats and cannot shrink
+            // any further (`epsilon` is below the resolution of `f64` here).
+            break;
+        }
         let r = scaled_epsilon - 0.5 * (b - a);
         let xf = (yb * a - ya * b) / (yb - ya);
         let sigma = x1_2 - xf;
@@ -716,12 +722,18 @@ pub(crate) fn solve_itp_fallible<E>(
     mut yb: f64,
 ) -> Result<(f64, f64), E> {
     let n1_2 = (((b - a) / epsilon).log2().ceil() - 1.0).max(0.0) as usize;
-    let nmax = n0 + n1_2;
-    let mut scaled_epsilon = epsilon * (1u64 << nmax) as f64;
+    let nmax = n0.saturating_add(n1_2);
+    // 2^nmax, exactly. (`1u64 << nmax` overflows when `epsilon` is below 2^-63 of the bracket.)
+    let mut scaled_epsilon = epsilon * f64::from_bits((1023 + nmax.min(1023) as u64) << 52);
     while b - a > 2.0 * epsilon {
         #[cfg(kurbo_verif)]
         crate::verif::tick();
         let x1_2 = 0.5 * (a + b);
+        if x1_2 <= a || x1_2 >= b {
+            // The bracket has collapsed to adjacent floats and cannot shrink
+            // any further (`epsilon` is below the resolution of `f64` here).
+            break;
+        }
         let r = scaled_epsilon - 0.5 * (b - a);
         let xf = (yb * a - ya * b) / (yb - ya);
         let sigma = x1_2 - xf;
